@@ -25,6 +25,7 @@ from typing import TextIO
 from markupsafe import Markup
 
 from .exceptions import ContextDepthError
+from .exceptions import LiquidValueError
 from .exceptions import LocalNamespaceLimitError
 from .exceptions import LoopIterationLimitError
 from .exceptions import UnknownFilterError
@@ -132,11 +133,19 @@ class RenderContext:
             obj = self.scope[root]
         except (KeyError, TypeError, IndexError):
             if default == UNDEFINED:
-                try:
+                if isinstance(root, str):
                     hint = f"{root!r} is undefined"
-                except ValueError:
-                    # An integer with more digits than the interpreter will display.
-                    root = f"<{root.__class__.__name__}>"
+                else:
+                    # The value of a nested path. Show what the template would
+                    # output for it, not its `repr`.
+                    from .stringify import to_liquid_string
+
+                    try:
+                        root = to_liquid_string(root)
+                    except LiquidValueError:
+                        # An integer with more digits than the interpreter will
+                        # display.
+                        root = f"<{root.__class__.__name__}>"
                     hint = f"{root} is undefined"
                 return self.env.undefined(root, hint=hint, token=token)
             return default
